@@ -64,6 +64,16 @@ func genC18(t *rapid.T) c18Case {
 		switch k {
 		case "add":
 			op.V = genSample().Draw(t, "v")
+			if (c.Type == "min" || c.Type == "single" || c.Type == "expavg" || c.Type == "sema") && rapid.IntRange(0, 5).Draw(t, "edge") == 0 {
+				// finite positive samples at the edges of the scale: far below one (a unit other than nanoseconds),
+				// and whole nanosecond counts of a second and more that differ by 1 (a relative difference of 1e-9 and less)
+				op.V = rapid.OneOf(
+					rapid.SampledFrom([]float64{1e-12, 2.5e-12, 4e-10, 8e-10, 9.99e-10, 1e-9, 1.01e-9, 5e-7, 1e-6}),
+					rapid.Map(rapid.IntRange(0, 3), func(i int) float64 { return 4_000_000_000 - float64(i) }),
+					rapid.Map(rapid.IntRange(0, 3), func(i int) float64 { return 1_000_000_000 + float64(i) }),
+					rapid.Map(rapid.IntRange(0, 3), func(i int) float64 { return 3_600_000_000_000 - float64(i) }),
+				).Draw(t, "edgeV")
+			}
 			if c.Type != "min" && rapid.IntRange(0, 7).Draw(t, "zero") == 0 {
 				op.V = 0 // a zero sample (RTT >= 0 is the domain; the minimum type keeps 0 as its "unset" sentinel, DESIGN 6)
 			}
